@@ -466,6 +466,9 @@ func (e *Engine) inline(st *state, fr *frame, in ssa.CallInstruction, fn *ssa.Fu
 				}
 				done[ev] = true
 				ev.Src, ev.Dst, ev.Size, ev.Count, ev.Recv, ev.Buf = substVal(ev.Src, nf), substVal(ev.Dst, nf), substVal(ev.Size, nf), substVal(ev.Count, nf), substVal(ev.Recv, nf), substVal(ev.Buf, nf)
+				if ev.IntType != nil {
+					ev.IntType = nf.substT(ev.IntType) // the number type of an atom written in the callee's type parameter
+				}
 				for i, a := range ev.Args {
 					ev.Args[i] = substVal(a, nf)
 				}
@@ -557,7 +560,11 @@ func (e *Engine) inline(st *state, fr *frame, in ssa.CallInstruction, fn *ssa.Fu
 					anyEv = true
 				}
 			}
-			if anyEv {
+			if flat := zeroTripArm(alt); flat != nil {
+				// `if len(x) == 0 { return }` in front of a loop over x (or a bulk write of x): the empty way is the loop
+				// running zero times
+				ns.events = append(ns.events, flat...)
+			} else if anyEv {
 				ns.events = append(ns.events, alt)
 			}
 		}
@@ -1594,6 +1601,16 @@ func (e *Engine) model(st *state, fr *frame, in ssa.CallInstruction, fn *ssa.Fun
 				}
 				if sz, ok := fixedSize(t); ok && sz > 0 {
 					return one(st, mkInt(sz)), true
+				}
+				// a slice of fixed-size numbers: element size times length
+				if sl, isSl := t.Underlying().(*types.Slice); isSl {
+					if esz, okE := fixedSize(sl.Elem()); okE && esz > 0 {
+						ln := mkLen(e.contentOf(st, v))
+						if esz == 1 {
+							return one(st, ln), true
+						}
+						return one(st, mkBinop(token.MUL, mkInt(esz), ln, types.Typ[types.Int])), true
+					}
 				}
 			}
 		}
@@ -2753,4 +2770,55 @@ func (e *Engine) cannotSupply(st *state, buf *Val, size int64) bool {
 		}
 	}
 	return false
+}
+
+
+// zeroTripArm: alt has two arms, one without events taken when some count is zero, the other – taken otherwise –
+// consisting of one complete loop over exactly that count plus observers of the buffer (Grow, AvailableBuffer) and panic
+// sites: the events of the second arm describe both (the loop runs zero times on the first). Returns those events.
+func zeroTripArm(alt *Event) []*Event {
+	if alt == nil || len(alt.Iter) != 2 {
+		return nil
+	}
+	for i := 0; i < 2; i++ {
+		empty, full := alt.Iter[i], alt.Iter[1-i]
+		if len(empty.Events) != 0 || len(empty.Conds) != 1 || len(full.Conds) != 1 {
+			continue
+		}
+		c := empty.Conds[0]
+		if c.V == nil || c.V.Op != "binop" || len(c.V.Args) != 2 || (c.V.Name != "==" && c.V.Name != "!=") || (c.V.Name == "==") != c.Taken {
+			continue
+		}
+		var x *Val
+		if isZero(c.V.Args[1]) {
+			x = c.V.Args[0]
+		} else if isZero(c.V.Args[0]) {
+			x = c.V.Args[1]
+		}
+		if x == nil || full.Conds[0].V == nil || full.Conds[0].V.Key() != c.V.Key() || full.Conds[0].Taken == c.Taken {
+			continue
+		}
+		reps := 0
+		ok := true
+		for _, ev := range full.Events {
+			switch ev.Kind {
+			case EvRep:
+				if ev.Partial || ev.Count == nil || !affEq(ev.Count, x) {
+					ok = false
+				}
+				reps++
+			case EvPanicSite, EvLen, EvBytes, EvAlloc:
+			case EvBufOther:
+				if ev.Mode != "Grow" && ev.Mode != "AvailableBuffer" {
+					ok = false
+				}
+			default:
+				ok = false
+			}
+		}
+		if ok && reps == 1 {
+			return full.Events
+		}
+	}
+	return nil
 }
